@@ -259,6 +259,34 @@ func VerifC09Resume() {
 	}
 	out, _ := sess.AllPackets(session.Outgoing)
 	vAssert(len(out) == n, "the session keeps everything until it is acknowledged")
+	// the handshakes of the retransmitted packets complete through the resumed connection
+	if conn.alive() && conn.sentCount() == 1+n {
+		for k := 0; k < n && conn.alive(); k++ {
+			id := packet.ID(k + 1)
+			if p, ok := conn.sentAt(1 + k).(*packet.Publish); ok && p.Message.QOS == 2 {
+				rels := conn.count(packet.PUBREL)
+				conn.in <- &packet.Pubrec{ID: id}
+				vQuiesce()
+				if !conn.alive() {
+					break
+				}
+				vAssert(conn.count(packet.PUBREL) == rels+1, "PUBREC for a retransmitted publish is answered by PUBREL")
+				stored, _ := sess.LookupPacket(session.Outgoing, id)
+				_, isRel := stored.(*packet.Pubrel)
+				vAssert(isRel, "PUBREC replaces the recorded publish by the PUBREL, also after a resume")
+				conn.in <- &packet.Pubcomp{ID: id}
+			} else if ok {
+				conn.in <- &packet.Puback{ID: id}
+			} else {
+				conn.in <- &packet.Pubcomp{ID: id}
+			}
+			vQuiesce()
+			if conn.alive() {
+				stored, _ := sess.LookupPacket(session.Outgoing, id)
+				vAssert(stored == nil, "an acknowledged packet is removed from the session, also after a resume")
+			}
+		}
+	}
 	cl.Close()
 	vCover("c09-resume-end")
 }
